@@ -39,8 +39,12 @@ def plan(tier, seed):
     for h in hs:
         h.name = h.name.replace("c01_", "c19_op_").replace("c03_", "c19_ix_").replace("c04_", "c19_as_").replace("c15_", "c19_rg_")
         h.key = "C19/" + h.key
+    pre = {}
+    pre.update(c03.plan(tier, seed)["incrate_prelude"])
+    pre.update(c04.plan(tier, seed)["incrate_prelude"])
     return {
         "harnesses": hs,
+        "incrate_prelude": pre,
         "tag_filter": r"VP:(resolve-differs|input-modified|second-solve-differs|source-modified).*",
         "explanation": "Kani/CBMC over the generated plan functions (operator, indexing, assignment and range kernels): solve, perturb the "
                        "output cell, solve again - identical output, inputs untouched; the induction over the plan and the loop of "
